@@ -397,8 +397,15 @@ def produce_lines(group, tier, seed, release=False, timeout=3000):
         import importlib
         sys.path.insert(0, os.path.join(VERIF, "lib"))
         mod = importlib.import_module("gen." + group[4:])
+        # A producer lays out a crate under .build/gen, builds it (sometimes several times, dropping
+        # the programs rustc rejected) and runs it. The dev and the release job of one check, and
+        # the checks of other properties that share the crate (every gen:ctfe_* uses c01ctfe's),
+        # would otherwise rewrite each other's sources between layout and build: one producer per
+        # crate at a time.
+        key = "c01ctfe" if group[4:].startswith("ctfe_") else group[4:]
         try:
-            err = mod.produce(tier, seed, release, out_path)
+            with Lock("gen_produce_%s.lock" % key):
+                err = mod.produce(tier, seed, release, out_path)
         except subprocess.TimeoutExpired:
             err = "generated-program producer timed out"
         if err:
